@@ -264,15 +264,19 @@ Definition dec_dev (o : pv) : option pv :=
           match dev_tbl cls, mapM chan_id chs, mapM dec_chan chs with
           | Some t, Some ids, Some objs =>
               let p0 := [("channel_ids", PList ids); ("channel_objects", PList objs)] in
+              (* params["dmm_objects"] = tuple(... for dmm_ch in obj.get("dmm_objects", [])) *)
               let p1 : option kvs :=
-                match get "dmm_objects" obj with
-                | None => Some p0
-                | Some (PList ds) =>
+                match (match get "dmm_objects" obj with
+                       | None => Some []
+                       | Some (PList ds) => Some ds
+                       | Some _ => None
+                       end) with
+                | Some ds =>
                     match mapM dec_chan ds with
                     | Some l => Some (p0 ++ [("dmm_objects", PList l)])
                     | None => None
                     end
-                | Some _ => None
+                | None => None
                 end in
               match p1, field_loop t t with_repr obj dec_dev_val with
               | Some p1, Some ps => construct cls t (p1 ++ ps)
